@@ -48,6 +48,7 @@ type Interp struct {
 	kind    FKind
 	fired   bool
 	caught  int
+	LoadRun bool // evaluate every text by LoadString + Run instead of EvalString
 	trace   []string
 	names   []string     // globals whose values are snapshotted at the moment of failure
 	Snap    string       // rendering of those globals when failk fired
@@ -259,7 +260,16 @@ func (it *Interp) evalOn(env *zygo.Zlisp, src string) (obs string) {
 			obs = "PANIC:" + strings.ReplaceAll(strings.ReplaceAll(s, "\n", " "), "\t", " ")
 		}
 	}()
-	v, err := env.EvalString(src)
+	var v zygo.Sexp
+	var err error
+	if it.LoadRun {
+		// the second entry point: LoadString (parse + compile), then Run
+		if err = env.LoadString(src); err == nil {
+			v, err = env.Run()
+		}
+	} else {
+		v, err = env.EvalString(src)
+	}
 	if err != nil {
 		if strings.Contains(err.Error(), zygo.VerifBudgetExhausted) {
 			return "BUDGET"
